@@ -105,9 +105,12 @@ structure ADT where
   off : Option Int     -- none = naive
 deriving Inhabited, Repr, DecidableEq
 
+/-- `datetime.astimezone(tz)` for fixed offsets, in CPython's two steps: `utc = self - offset` (OverflowError when the UTC wall clock is
+    not representable, even if the final value would be), then `tz.fromutc(utc) = utc + new offset` -/
 def astimezone (x : ADT) (b : Int) : Except PyErr ADT := do
   let a := x.off.getD 0
-  let t ← x.t.addSeconds (b - a)
+  let u ← x.t.addSeconds (-a)
+  let t ← u.addSeconds b
   return { t, off := some b }
 
 structure Settings where
@@ -330,6 +333,11 @@ def relDeltaOf (s : String) : Except PyErr (Option RelDelta) := do
     | none => acc) (0, 1)
   return some { years := yrs, months := mos, micros := roundHalfEven num den, period }
 
+/-- the period after an explicit clock time was applied: 'time' when time-as-period is requested (the source decides whether the
+    clock time must also have changed the datetime: `Gen.freshTimePeriodByChange`) -/
+def freshPeriod (tap : Bool) (changed : Bool) (p : Period) : Period :=
+  if tap && (if Gen.freshTimePeriodByChange then changed else true) then .time else p
+
 /-- `now ± relativedelta`: month arithmetic with day clamp first, then the linear part -/
 def applyRelDelta (now : DT) (sign : Int) (rd : RelDelta) : Except PyErr DT := do
   let t1 ← rdAddYM now (sign * rd.years) (sign * rd.months)
@@ -363,7 +371,7 @@ def freshnessParse (T : TzTable) (st : Settings) (s0 : String) : Except PyErr (O
   let mut period := rd.period
   if let some tm := time then
     let nd := { date.t with h := tm.h, mi := tm.mi, s := tm.s, us := tm.us }
-    if st.timeAsPeriod && nd != date.t then period := .time
+    period := freshPeriod st.timeAsPeriod (nd != date.t) period
     date := { date with t := nd }
   if st.toTimezone.isSome then
     let b ← needFixed st.toTzApply
